@@ -237,7 +237,7 @@ class Baton:
 # ---------------------------------------------------------------------------
 # request kinds
 
-KINDS = ['plain', 'body', 'raise', 'nf', 'crash', 'json404', 'form', 'hdrs', 'mutq', 'latin', 'badmp_json', 'signed', 'forged', 'stat_s', 'stat_n', 'rewrite', 'tenant', 'whoami', 'lazy', 'delc_opts', 'delc_plain', 'upload_ct', 'upload_bare', 'account', 'about', 'mount', 'stream', 'chunked', 'badcl']
+KINDS = ['plain', 'body', 'raise', 'nf', 'crash', 'json404', 'form', 'hdrs', 'mutq', 'latin', 'badmp_json', 'signed', 'forged', 'stat_s', 'stat_n', 'rewrite', 'tenant', 'whoami', 'lazy', 'delc_opts', 'delc_plain', 'upload_ct', 'upload_bare', 'account', 'about', 'mount', 'stream', 'chunked', 'badcl', 'gate', 'gate_ok', 'proxied']
 
 
 class _Lazy:
@@ -332,6 +332,23 @@ def make_app(config=None, app=None):
             q['tag'].append('seen-by-' + name)
         p = rq.params
         return json.dumps([name, before, sorted(p.keys())])
+
+    # application-wide hooks: an access check that refuses by raising, and a hook after it that marks the answers of the
+    # guarded area (both look only at paths below /gate/, every other request passes untouched)
+    def _gate_check():
+        if rq.path.startswith('/gate/') and rq.headers.get('X-Token') != 'let-me-in':
+            from ombott import HTTPError
+            raise HTTPError(401, 'a token is required for ' + rq.path)
+
+    def _gate_mark():
+        if rq.path.startswith('/gate/'):
+            rs.headers['X-Frame-Options'] = 'DENY'
+    app.add_hook('before_request', _gate_check)
+    app.add_hook('before_request', _gate_mark)
+
+    @app.route('/gate/<name>')
+    def gate(name):
+        return 'the confidential report for ' + name
 
     # a route hook that annotates the request of a wildcard-free route; static handlers that take whatever keyword arguments arrive
     def _account_hook(prefix):
@@ -575,6 +592,15 @@ def environ_for(kind, name):
         env.update(PATH_INFO='/crashform/x', REQUEST_METHOD='POST', CONTENT_LENGTH=str(len(data)), CONTENT_TYPE='application/x-www-form-urlencoded',
                    QUERY_STRING='same=1', HTTP_HOST='same.example', HTTP_COOKIE='c=1')
         env['wsgi.input'] = io.BytesIO(data)
+    elif kind in ('gate', 'gate_ok'):
+        env['PATH_INFO'] = '/gate/' + name
+        if kind == 'gate_ok':
+            env['HTTP_X_TOKEN'] = 'let-me-in'
+    elif kind == 'proxied':
+        # behind a reverse proxy: Host is the proxy's own name for every client, the site asked for is in X-Forwarded-Host
+        env['PATH_INFO'] = '/who/' + name
+        env['HTTP_HOST'] = 'proxy.internal'
+        env['HTTP_X_FORWARDED_HOST'] = 'a.example' if sum(map(ord, name)) % 2 else 'b.example'
     elif kind == 'account':
         env['PATH_INFO'] = '/account'
     elif kind == 'about':
